@@ -8,6 +8,7 @@ import (
 	"time"
 
 	"github.com/karagenc/socket.io-go/internal/sync"
+	"github.com/karagenc/socket.io-go/internal/vhook"
 
 	eio "github.com/karagenc/socket.io-go/engine.io"
 	eioparser "github.com/karagenc/socket.io-go/engine.io/parser"
@@ -90,11 +91,14 @@ func (c *serverConn) onEIOPacket(packets ...*eioparser.Packet) {
 }
 
 func (c *serverConn) onParserFinish(header *parser.PacketHeader, eventName string, decode parser.Decode) {
+	vhook.Event("conn.finish", "c", c, "type", int(header.Type), "nsp", header.Namespace, "name", eventName)
 	go func() {
 		if header.Namespace == "" {
 			header.Namespace = "/"
 		}
+		vhook.Yield("conn.dispatch.start", c)
 		socket, ok := c.sockets.getByNsp(header.Namespace)
+		vhook.Event("conn.route", "c", c, "type", int(header.Type), "nsp", header.Namespace, "joined", ok)
 
 		if header.Type == parser.PacketTypeConnect && !ok {
 			c.connect(header, decode)
@@ -105,6 +109,7 @@ func (c *serverConn) onParserFinish(header *parser.PacketHeader, eventName strin
 			}
 		} else {
 			c.debug.Log("Invalid state", "packet type", header.Type)
+			vhook.Event("conn.invalid", "c", c, "type", int(header.Type), "nsp", header.Namespace)
 			c.close()
 		}
 	}()
@@ -150,6 +155,7 @@ func (c *serverConn) connect(header *parser.PacketHeader, decode parser.Decode) 
 	socket, err := nsp.add(c, auth)
 	if err != nil {
 		c.debug.Log("Connection to namespace", nsp.name, "was denied")
+		vhook.Event("conn.rejected", "c", c, "nsp", nsp.name)
 		mErr := &middlewareError{}
 		if errors.As(err, &mErr) {
 			c.connectError(mErr.data(), nsp.Name())
@@ -159,6 +165,7 @@ func (c *serverConn) connect(header *parser.PacketHeader, decode parser.Decode) 
 		return
 	}
 
+	vhook.Yield("conn.connect.beforeSet", c)
 	c.sockets.set(socket)
 	c.nsps.set(nsp)
 }
@@ -235,6 +242,7 @@ func (c *serverConn) onClose(reason Reason, err error) {
 	// We don't want it to close more than once,
 	// so we use sync.Once to avoid running onClose more than once.
 	c.closeOnce.Do(func() {
+		vhook.Event("conn.onclose", "c", c, "reason", string(reason))
 		sockets := c.sockets.getAndRemoveAll()
 		for _, socket := range sockets {
 			socket.onClose(reason)
